@@ -15,6 +15,8 @@ pub enum Src {
     Corpus,
     CorpusTrunc,
     Random,
+    /// lengths, counts and depths at buffer / chunk / counter sizes (gen::scale_docs)
+    Scale,
 }
 impl Src {
     pub fn name(self) -> &'static str {
@@ -28,6 +30,7 @@ impl Src {
             Src::Corpus => "corpus",
             Src::CorpusTrunc => "corpus_truncation",
             Src::Random => "random",
+            Src::Scale => "scale",
         }
     }
     pub fn exhaustive(self) -> bool {
@@ -53,6 +56,8 @@ pub struct Plan {
     pub random_bytes: u64,
     pub random_len: usize,
     pub random_atoms: u64,
+    /// scale documents up to this size parameter (0 = off)
+    pub scale_max: usize,
 }
 impl Default for Plan {
     fn default() -> Self {
@@ -70,6 +75,7 @@ impl Default for Plan {
             random_bytes: 0,
             random_len: 64,
             random_atoms: 0,
+            scale_max: 0,
         }
     }
 }
@@ -209,6 +215,15 @@ pub fn for_each_input(ctx: &mut Ctx, plan: &Plan, f: &mut dyn FnMut(&mut Ctx, &[
                 if !f(ctx, &data[..cut], Src::CorpusTrunc, &mut rng) {
                     return;
                 }
+            }
+        }
+    }
+    if plan.scale_max > 0 {
+        let max = if tiny { plan.scale_max.min(64) } else if ctx.scale_pct < 100 { plan.scale_max.min(1024) } else { plan.scale_max };
+        for (_kind, _n, d) in scale_docs(ctx.shard, ctx.nshards, ctx.seed, max) {
+            ctx.count("scale_documents");
+            if !f(ctx, &d, Src::Scale, &mut rng) {
+                return;
             }
         }
     }
